@@ -127,7 +127,7 @@ def for_property(prop):
             items = [("bfs", 1, 9 if q else 12, 20000), ("bfs", 2, 8 if q else 11, 60000 if q else 250000), ("bfs", 3, 5 if q else 7, 60000 if q else 300000)]
             if not q:
                 items.append(("bfs", 4, 5, 300000))
-            items += [("rand", i, 300 if q else 3000, 1000) for i in range(12 if q else 48)]
+            items += [("rand", i, 300 if q else 20000, 1000) for i in range(12 if q else 64)]
             items += [("conv", i, 20 if q else 300) for i in range(4 if q else 16)]
             return items
         m.plan = plan
